@@ -142,14 +142,16 @@ func gposStr(S gpos, s string) gpos {
 
 // WriterEmpty: nothing written, nothing deferred (exported for the contracts of packages compiler and debug).
 func WriterEmpty(cw *CodeWriter) bool {
-	return len(cw.pendings) == 0 && eq(cw.Builder, strings.Builder{}) && cw.lastByte == 0 && !cw.lastInt
+	return len(cw.pendings) == 0 && eq(cw.Builder, strings.Builder{}) && cw.lastByte == 0 && !cw.lastInt && cw.prevByte == 0
 }
 
 // fuse: token-fusion automaton over the write history. A write that begins with '+' or '-' directly after a byte equal
 // to it would fuse two tokens into another one (`--`, `++`) -- inside one write the characters belong to one token --,
-// and a dot written directly after an integer literal would be taken for its fraction point (`5.x`).
+// a dot written directly after an integer literal would be taken for its fraction point (`5.x`), and a minus sign written
+// directly after `<!` starts an HTML-like comment (`a<!--b`, ECMA-262 B.1.1).
 type fuseState struct {
 	last   byte
+	prev   byte // the byte before last
 	bad    bool
 	intRun bool // the last write consisted of decimal digits only (an integer literal)
 }
@@ -159,21 +161,28 @@ func allDigits(s string) bool {
 	return len(s) > 0 && forall(0, len(s), func(k int) bool { return '0' <= s[k] && s[k] <= '9' })
 }
 
+func prevOf(last byte, s string) byte {
+	if len(s) >= 2 {
+		return s[len(s)-2]
+	}
+	return last
+}
+
 func fuseInit() fuseState { return fuseState{} }
 func fuseByte(S fuseState, c byte) fuseState {
-	return fuseState{last: c, bad: S.bad || (S.last == c && (c == '+' || c == '-')) || (S.intRun && c == '.'), intRun: '0' <= c && c <= '9'}
+	return fuseState{last: c, prev: S.last, bad: S.bad || (S.last == c && (c == '+' || c == '-')) || (S.intRun && c == '.') || (S.prev == '<' && S.last == '!' && c == '-'), intRun: '0' <= c && c <= '9'}
 }
 func fuseStr(S fuseState, s string) fuseState {
 	if len(s) == 0 {
 		return S
 	}
-	return fuseState{last: s[len(s)-1], bad: S.bad || (S.last == s[0] && (s[0] == '+' || s[0] == '-')) || (S.intRun && s[0] == '.'), intRun: allDigits(s)}
+	return fuseState{last: s[len(s)-1], prev: prevOf(S.last, s), bad: S.bad || (S.last == s[0] && (s[0] == '+' || s[0] == '-')) || (S.intRun && s[0] == '.') || (S.prev == '<' && S.last == '!' && s[0] == '-'), intRun: allDigits(s)}
 }
 
 // NoFusion: nothing written so far fuses adjacent sign tokens, and the writer knows the last byte it wrote.
 func NoFusion(cw *CodeWriter) bool {
 	return !foldH(fuseByte, fuseStr, fuseInit(), built(cw.Builder)).bad && cw.lastByte == foldH(fuseByte, fuseStr, fuseInit(), built(cw.Builder)).last &&
-		cw.lastInt == foldH(fuseByte, fuseStr, fuseInit(), built(cw.Builder)).intRun
+		cw.lastInt == foldH(fuseByte, fuseStr, fuseInit(), built(cw.Builder)).intRun && cw.prevByte == foldH(fuseByte, fuseStr, fuseInit(), built(cw.Builder)).prev
 }
 
 // J: the source mapper's cursor is the generated position of everything written so far.
@@ -192,7 +201,7 @@ func cwInv(cw *CodeWriter) bool {
 // mapper's state. Options (PrettyPrint, IndentString, WriteSemicolons, the Mapper pointer) and the tree are not in it.
 //@ group cwFrame
 //@   requires [cw] cw != nil && cwInv(cw) && J(cw) && NoFusion(cw)
-//@   modifies cw.Builder, cw.pendings, cw.IndentLevel, cw.lastByte, cw.lastInt, cw.semiOmitted, cw.deferred
+//@   modifies cw.Builder, cw.pendings, cw.IndentLevel, cw.lastByte, cw.prevByte, cw.lastInt, cw.semiOmitted, cw.deferred
 //@   modifies cw.Mapper.generatedLine, cw.Mapper.generatedColumn, cw.Mapper.mappings, cw.Mapper.names, cw.Mapper.nameIndex[*]
 //@   ensures [cwinv@C06,C08] cwInv(cw)
 //@   ensures [J@C08] J(cw)
@@ -254,7 +263,7 @@ func asiHazard(c byte) bool { return c == '(' || c == '[' || c == '+' || c == '-
 //@ func (cw *CodeWriter) restoreSemi(next)
 //@   props C06 C03 C01 C08 C11
 //@   requires [cw] cw != nil && cwInv(cw) && J(cw) && NoFusion(cw)
-//@   modifies cw.Builder, cw.lastByte, cw.lastInt, cw.Mapper.generatedColumn
+//@   modifies cw.Builder, cw.lastByte, cw.prevByte, cw.lastInt, cw.Mapper.generatedColumn
 //@   ensures [cwinv] cwInv(cw)
 //@   ensures [J@C08] J(cw)
 //@   ensures [no-fusion@C03,C01,C14] NoFusion(cw)
@@ -272,12 +281,12 @@ func asiHazard(c byte) bool { return c == '(' || c == '[' || c == '+' || c == '-
 //@ func (cw *CodeWriter) separateSigns(next)
 //@   props C03 C01 C08 C06 C11
 //@   requires [cw] cw != nil && cwInv(cw) && J(cw) && NoFusion(cw)
-//@   modifies cw.Builder, cw.lastByte, cw.lastInt, cw.Mapper.generatedColumn
+//@   modifies cw.Builder, cw.lastByte, cw.prevByte, cw.lastInt, cw.Mapper.generatedColumn
 //@   ensures [cwinv] cwInv(cw)
 //@   ensures [J@C08] J(cw)
 //@   ensures [no-fusion@C03,C01,C14] NoFusion(cw)
-//@   ensures [separated@C03,C01] !((next == '+' || next == '-') && cw.lastByte == next) && !(next == '.' && cw.lastInt)
-//@   ensures [only-then@C06] implies(!((next == '+' || next == '-') && old(cw.lastByte) == next) && !(next == '.' && old(cw.lastInt)), eq(cw.Builder, old(cw.Builder)) && cw.lastByte == old(cw.lastByte) && cw.lastInt == old(cw.lastInt))
+//@   ensures [separated@C03,C01] !((next == '+' || next == '-') && cw.lastByte == next) && !(next == '.' && cw.lastInt) && !(next == '-' && cw.lastByte == '!' && cw.prevByte == '<')
+//@   ensures [only-then@C06] implies(!((next == '+' || next == '-') && old(cw.lastByte) == next) && !(next == '.' && old(cw.lastInt)) && !(next == '-' && old(cw.lastByte) == '!' && old(cw.prevByte) == '<'), eq(cw.Builder, old(cw.Builder)) && cw.lastByte == old(cw.lastByte) && cw.lastInt == old(cw.lastInt) && cw.prevByte == old(cw.prevByte))
 //@   ensures [no-mapping@C08] cw.Mapper == nil || sourcemap.NumMappings(cw.Mapper) == old(sourcemap.NumMappings(cw.Mapper))
 
 //@ func (cw *CodeWriter) clearPending()
